@@ -1,5 +1,5 @@
 (* C15: byte transforms invert exactly and match their definition. *)
-From Coq Require Import ZArith NArith List Bool Lia ZifyBool ZifyN ZifyNat.
+From Coq Require Import ZArith NArith List Bool Lia ZifyBool ZifyN ZifyNat Arith.
 From Coq Require Import Strings.Byte.
 Require Import Bytes Value Expr Codec Float Stream Syntax Sizeof Parse Build BytesFacts StreamFacts PrimFacts.
 Import ListNotations.
@@ -49,6 +49,50 @@ Lemma xor_cycle_aux_length key : key <> [] -> forall data cur, length (xor_cycle
 Proof.
   intros Hk. induction data as [|d t IH]; intros cur; cbn [xor_cycle_aux length]; [reflexivity|].
   destruct cur as [|k cur']; [destruct key as [|k cur']; [congruence|]|]; cbn [length]; rewrite IH; reflexivity.
+Qed.
+
+Lemma skipn_cons_nth {A} (d : A) : forall (l : list A) j k t, skipn j l = k :: t -> (j < length l)%nat /\ k = nth j l d /\ t = skipn (S j) l.
+Proof.
+  induction l as [|x l IH]; intros j k t H.
+  - destruct j; discriminate.
+  - destruct j as [|j]; cbn [skipn] in H.
+    + injection H as <- <-. cbn [length nth skipn]. repeat split; lia.
+    + destruct (IH j k t H) as (H1 & H2 & H3). cbn [length nth]. repeat split; [lia|exact H2|exact H3].
+Qed.
+
+Lemma skipn_nil_ge {A} : forall (l : list A) j, skipn j l = [] -> (length l <= j)%nat.
+Proof.
+  induction l as [|x l IH]; intros j H; [cbn; lia|]. destruct j as [|j]; [discriminate|]. cbn [skipn] in H. apply IH in H. cbn [length]. lia.
+Qed.
+
+Lemma xor_cycle_aux_nth key : key <> [] -> forall data j i,
+  (j <= length key)%nat -> (i < length data)%nat ->
+  nth i (xor_cycle_aux key (skipn j key) data) x00 =
+  xor_byte (nth i data x00) (nth ((j + i) mod length key) key x00).
+Proof.
+  intros Hk. assert (HL : (0 < length key)%nat) by (destruct key; [congruence|cbn; lia]).
+  induction data as [|d t IH]; intros j i Hj Hi; [cbn in Hi; lia|]. cbn [xor_cycle_aux].
+  destruct (skipn j key) as [|k cur'] eqn:Es.
+  - apply skipn_nil_ge in Es. assert (j = length key) by lia. subst j.
+    destruct key as [|k0 key'] eqn:Ek; [congruence|]. rewrite <- Ek in *.
+    assert (Es1 : skipn 0 key = k0 :: key') by (rewrite Ek; reflexivity).
+    destruct i as [|i]; cbn [nth].
+    + rewrite Nat.add_0_r, Nat.mod_same by lia. rewrite Ek. reflexivity.
+    + change key' with (skipn 1 (k0 :: key')). rewrite <- Ek.
+      rewrite IH by (cbn [length] in Hi; lia).
+      f_equal. f_equal. replace (length key + S i)%nat with (1 + i + 1 * length key)%nat by lia. rewrite Nat.mod_add by lia. reflexivity.
+  - destruct (skipn_cons_nth x00 _ _ _ _ Es) as (H1 & H2 & H3). subst k cur'.
+    destruct i as [|i]; cbn [nth].
+    + rewrite Nat.add_0_r, Nat.mod_small by exact H1. reflexivity.
+    + rewrite IH by (cbn [length] in Hi; lia). f_equal. f_equal. f_equal. lia.
+Qed.
+
+(* the definition of the cycled XOR, byte by byte: output byte i is data byte i XOR key byte (i mod |key|), for data of ANY length *)
+Theorem xor_cycle_nth : forall key data i, key <> [] -> (i < length data)%nat ->
+  nth i (xor_cycle key data) x00 = xor_byte (nth i data x00) (nth (i mod length key) key x00).
+Proof.
+  intros key data i Hk Hi. unfold xor_cycle. change key with (skipn 0 key) at 2.
+  rewrite xor_cycle_aux_nth by (try exact Hk; try exact Hi; lia). reflexivity.
 Qed.
 
 (* the single-byte shortcut is the general definition *)
